@@ -549,6 +549,71 @@ def run_functions(ctx):
         finally:
             g.close()
     ctx.compare("Checker._format_results on random per-server results", cases, impl, ctx.model(lines))
+    # check WITHOUT verification: the real Checker._check_server_shares on servers that claim arbitrary share numbers / fail
+    from twisted.internet import defer
+    from foolscap.api import RemoteException
+    from twisted.python.failure import Failure
+
+    from zope.interface import implementer
+    from allmydata.interfaces import IServer
+
+    @implementer(IServer)
+    class ClaimingServer:
+        def __init__(self, idx, claim):
+            self.idx, self.claim = idx, claim
+
+        def get_storage_server(self):
+            return self
+
+        def get_buckets(self, si):
+            if self.claim is None:
+                return defer.fail(RemoteException(Failure(RuntimeError("server failed"))))
+            return defer.succeed({sh: None for sh in self.claim})
+
+        def get_lease_seed(self):
+            return b"l" * 20
+
+        def get_name(self):
+            return b"srv%d" % self.idx
+
+        def get_serverid(self):
+            return b"%020d" % self.idx
+
+    class SH:
+        def get_renewal_secret(self):
+            return b"r" * 32
+
+        def get_cancel_secret(self):
+            return b"c" * 32
+
+    lines, impl, cases = [], [], []
+    for _ in range(ctx.budget(200, 3000)):
+        k = rng.randrange(1, 5)
+        n = rng.randrange(k, 9)
+        vcap = uri.CHKFileVerifierURI(b"i" * 16, b"u" * 32, k, n, 100)
+        ck = checker.Checker(vcap, [], False, False, SH(), Monitor())
+        servers, toks = [], []
+        for srv in rng.sample(range(6), rng.randrange(0, 7)):
+            claim = None if rng.random() < 0.2 else sorted({rng.randrange(0, n) for _ in range(rng.randrange(0, 5))})
+            servers.append(ClaimingServer(srv, claim))
+            toks.append("%d:%s" % (srv, "x" if claim is None else (".".join(map(str, claim)) or "-")))
+        results = []
+        for sv in servers:
+            box = []
+            ck._check_server_shares(sv).addBoth(box.append)
+            results.append(box[0])
+        cr = ck._format_results(results)
+        lines.append("noverify %d %d %s" % (k, n, ";".join(toks) or "-"))
+        impl.append("healthy=%d recoverable=%d good=%d corrupt=%d incompatible=%d" % (
+            cr.is_healthy(), cr.is_recoverable(), cr.get_share_counter_good(), len(cr.get_corrupt_shares()),
+            len(cr.get_incompatible_shares())))
+        cases.append({"kind": "noverify", "k": k, "n": n, "answers": toks})
+        ctx.case(("noverify", k, n, tuple(toks)))
+        claimed = {sh for sv in servers if sv.claim for sh in sv.claim}
+        if cr.get_share_counter_good() != len(claimed) or cr.get_corrupt_shares():
+            ctx.violation("check(verify=False) does not count exactly the claimed share numbers", cases[-1], "noverify-count")
+    ctx.compare("Checker._check_server_shares + _format_results (check without verification) on claiming / failing servers",
+                cases, impl, ctx.model(lines))
 
 
 CORPUS_SEED = 20260922
